@@ -84,10 +84,19 @@ def _iter_arrays(obj, depth=0):
                 arr = obj
             if hasattr(arr, "codes") and hasattr(arr, "categories"):
                 yield np.asarray(arr.codes)
+                yield np.asarray(arr.categories)
             elif isinstance(arr, np.ndarray):
                 yield arr
+            elif hasattr(arr, "_pa_array"):
+                yield from _iter_arrays(arr._pa_array, depth + 1)
             elif hasattr(arr, "_ndarray"):
                 yield arr._ndarray
+        except Exception:
+            return
+        return
+    if mod.startswith("polars"):
+        try:
+            yield from _iter_arrays(obj.to_arrow(), depth + 1)
         except Exception:
             return
         return
